@@ -33,15 +33,17 @@ CONSTANTS Names,       \* subset of {"a", "b", "c"}   (lexicographic order = NRa
           MaxSeries, MaxChunks,
           NVals,       \* numbers of samples per chunk
           Damaging,    \* BOOLEAN: explore Damage/ReadBack
+          Cards,       \* numbers of distinct values of one label name in a "wide" block (around the reader's 32-value sampling grid)
           EmitMode
 
 VARIABLES series,      \* set of [labels, chunks]
+          wide,        \* 0, or n: the block is the wide block with n series {job="j", w="v001".."v<n>"}
           phase,       \* "build" | "open" | "damaged" | "checked"
           damage,      \* what was altered
           hist
 
-vars == <<series, phase, damage, hist>>
-View == <<series, phase, damage, Len(hist)>>
+vars == <<series, wide, phase, damage, hist>>
+View == <<series, wide, phase, damage, Len(hist)>>
 
 NRank(n) == CASE n = "a" -> 1 [] n = "b" -> 2 [] n = "c" -> 3
 VRank(v) == CASE v = "x" -> 1 [] v = "y" -> 2 [] v = "z" -> 3
@@ -83,36 +85,54 @@ Obs == [symbols  |-> Symbols,
         postings |-> [n \in LabelNames |-> [v \in LabelValues(n) |-> Postings(n, v)]],
         series   |-> [r \in 1..N |-> [labels |-> ByRank(r).labels, chunks |-> ChunkMetas(ByRank(r))]]]
 
+\* A "wide" block: n series {job="j", w="v001"} .. {job="j", w="v<n>"} (zero-padded, so value order = number
+\* order = series order), one chunk each. The index reader keeps only every 32nd value of a label name in
+\* memory plus the first and the last one (tsdb/index newReader, symbolFactor); what it returns must not
+\* depend on where n falls on that grid.
+WideObs(n) == [wide |-> n, names |-> {"job", "w"}, nvalues |-> n,
+               firstrank |-> 1, lastrank |-> n,          \* series holding the smallest / largest value of w
+               all |-> n,                                \* w =~ "v.*"  and  PostingsForAllLabelValues(w)
+               notfirst |-> n - 1, notlast |-> n - 1,    \* w != "v001",  w != "v<n>"
+               onlylast |-> 1,                           \* w =~ ".*<n>" (regexp that cannot be turned into a lookup)
+               grid |-> n % 32]
+CurObs == IF wide > 0 THEN WideObs(wide) ELSE Obs
+
 -----------------------------------------------------------------------------
-Init == series = {} /\ phase = "build" /\ damage = NoDamage /\ hist = <<>>
+Init == series = {} /\ wide = 0 /\ phase = "build" /\ damage = NoDamage /\ hist = <<>>
 
 AddSeries(l) ==
   /\ phase = "build" /\ N < MaxSeries
   /\ \A s \in series : s.labels # l
   /\ series' = series \cup {[labels |-> l, chunks |-> <<>>]}
-  /\ UNCHANGED <<phase, damage, hist>>
+  /\ UNCHANGED <<phase, damage, hist, wide>>
 
 AddChunk(s, enc, n) ==
   /\ phase = "build" /\ s \in series /\ Len(s.chunks) < MaxChunks
   /\ series' = (series \ {s}) \cup {[s EXCEPT !.chunks = Append(@, [enc |-> enc, n |-> n])]}
-  /\ UNCHANGED <<phase, damage, hist>>
+  /\ UNCHANGED <<phase, damage, hist, wide>>
 
 \* the block is written (LeveledCompactor.write: chunks.Writer, index.Writer, meta) and opened
 Write ==
   /\ phase = "build" /\ series # {} /\ \A s \in series : s.chunks # <<>>
   /\ phase' = "open"
   /\ hist' = <<[a |-> "Write", obs |-> Obs]>>
+  /\ UNCHANGED <<series, damage, wide>>
+
+WriteWide(n) ==
+  /\ phase = "build" /\ series = {} /\ n \in Cards
+  /\ wide' = n /\ phase' = "open"
+  /\ hist' = <<[a |-> "Write", obs |-> WideObs(n)]>>
   /\ UNCHANGED <<series, damage>>
 
 Reopen ==
   /\ phase = "open" /\ Len(hist) = 1
-  /\ hist' = Append(hist, [a |-> "Reopen", obs |-> Obs])
-  /\ UNCHANGED <<series, phase, damage>>
+  /\ hist' = Append(hist, [a |-> "Reopen", obs |-> CurObs])
+  /\ UNCHANGED <<series, phase, damage, wide>>
 
 Recompact ==
   /\ phase = "open" /\ Len(hist) = 2
-  /\ hist' = Append(hist, [a |-> "Recompact", obs |-> Obs])
-  /\ UNCHANGED <<series, phase, damage>>
+  /\ hist' = Append(hist, [a |-> "Recompact", obs |-> CurObs])
+  /\ UNCHANGED <<series, phase, damage, wide>>
 
 ChunkBytes == {"len", "enc", "data_first", "data_mid", "data_last", "crc_first", "crc_last"}
 EntryBytes == {"len", "body_first", "body_mid", "body_last", "crc_first", "crc_last"}
@@ -120,9 +140,9 @@ Masks == {1, 128, 255}
 
 \* one byte of one chunk record / series entry is altered on disk
 Damage(d) ==
-  /\ Damaging /\ phase = "open" /\ Len(hist) = 3
+  /\ Damaging /\ wide = 0 /\ phase = "open" /\ Len(hist) = 3
   /\ damage' = d /\ phase' = "damaged"
-  /\ UNCHANGED <<series, hist>>
+  /\ UNCHANGED <<series, hist, wide>>
 
 \* what reading every entity of the damaged block must give: an error for the altered record, the
 \* original for every other one -- never different data
@@ -135,7 +155,7 @@ ReadBack ==
   /\ phase = "damaged"
   /\ phase' = "checked"
   /\ hist' = Append(hist, [a |-> "Damage", d |-> damage, read |-> ReadResult(damage)])
-  /\ UNCHANGED <<series, damage>>
+  /\ UNCHANGED <<series, damage, wide>>
 
 Damages == {[kind |-> "chunk", rank |-> Rank(s), k |-> k, byte |-> b, mask |-> m] :
               s \in series, k \in 1..MaxChunks, b \in ChunkBytes, m \in Masks}
@@ -145,6 +165,7 @@ Damages == {[kind |-> "chunk", rank |-> Rank(s), k |-> k, byte |-> b, mask |-> m
 Next == \/ \E l \in LabelSets : AddSeries(l)
         \/ \E s \in series, e \in Encs, n \in NVals : AddChunk(s, e, n)
         \/ Write \/ Reopen \/ Recompact
+        \/ \E n \in Cards : WriteWide(n)
         \/ \E d \in Damages : (d.kind = "chunk" => d.k <= Len(ByRank(d.rank).chunks)) /\ Damage(d)
         \/ ReadBack
 
@@ -167,7 +188,11 @@ IndexOK ==
   /\ \A s \in series : \A n \in DOMAIN s.labels : n \in Symbols /\ s.labels[n] \in Symbols
 
 \* reopening or rewriting the block does not change what it returns
-Stable == \A i \in 1..Len(hist) : hist[i].a \in {"Write", "Reopen", "Recompact"} => hist[i].obs = Obs
+Stable == \A i \in 1..Len(hist) : hist[i].a \in {"Write", "Reopen", "Recompact"} => hist[i].obs = CurObs
+
+\* a wide block returns all of its n values and finds the series of the last one, wherever n falls on the grid
+WideOK == wide > 0 => \A i \in 1..Len(hist) : hist[i].obs.nvalues = wide /\ hist[i].obs.lastrank = wide
+                                               /\ hist[i].obs.notlast = wide - 1 /\ hist[i].obs.all = wide
 
 \* exactly the altered record is refused, everything else is returned unchanged
 DamageDetected ==
@@ -178,7 +203,8 @@ DamageDetected ==
     /\ \A x \in 1..N : r.series[x] \in {"same", "error"}
 
 -----------------------------------------------------------------------------
-Class == IF phase = "checked"
+Class == IF wide > 0 THEN <<"wide", wide, wide % 32>> ELSE
+         IF phase = "checked"
          THEN <<"damage", damage.kind, damage.byte, damage.mask, N,
                 IF damage.kind = "chunk" THEN ByRank(damage.rank).chunks[damage.k].enc ELSE "-",
                 IF damage.kind = "chunk" THEN damage.k ELSE 0>>
@@ -186,7 +212,7 @@ Class == IF phase = "checked"
                 Cardinality({Len(s.chunks) : s \in series}), Cardinality(UNION {{c.enc : c \in {s.chunks[k] : k \in 1..Len(s.chunks)}} : s \in series})>>
 
 \* terminal states: a block that went through Write/Reopen/Recompact (+ Damage/ReadBack)
-EmitState == EmitMode = "none" \/ ~(phase = "checked" \/ (~Damaging /\ phase = "open" /\ Len(hist) = 3))
-             \/ PrintT("@@TR " \o ToJson([cl |-> Class, h |-> hist,
+EmitState == EmitMode = "none" \/ ~(phase = "checked" \/ ((~Damaging \/ wide > 0) /\ phase = "open" /\ Len(hist) = 3))
+             \/ PrintT("@@TR " \o ToJson([cl |-> Class, h |-> hist, wide |-> wide,
                                           block |-> [r \in 1..N |-> [labels |-> ByRank(r).labels, chunks |-> ByRank(r).chunks]]]))
 =============================================================================
